@@ -21,7 +21,7 @@ TRUSTED = [
 ]
 ASSUMPTIONS = [
     "the audio layer seen by the core behaves like AudioEnv (DESIGN.md section 3); GStreamer is not modelled",
-    "backend play/pause/resume/stop/seek/get_time_position do not raise (the code's own TODOs; outside the property statements)",
+    "in the MODEL backend play/pause/resume/stop/seek/get_time_position do not raise; on the implementation a monitor-only stage (core_faulty.py) makes play() and prepare_change() raise: requests still end, TypeError from play() and any prepare_change() failure are contained, any other exception from play() reaches the client (recorded finding, the code's own TODO)",
     "client arguments are type-correct (ints, bools, lists) except that add(tracks=...) may carry items that are not Tracks; range errors are part of the quantifier",
 ]
 
